@@ -64,7 +64,7 @@ def plan(tier, seed):
 def floors(tier):
     return {"distinct_nontrivial": 300, "op:new": 3000, "op:sym": 1000, "op:rule": 500, "op:clear": 300, "op:query": 3000,
             "cls:undecorated_subclass": 500, "cls:hand_written": 500, "cls:query_after_clear": 200,
-            "cls:inferred_instances_queried": 60, "op:predq": 300, "re:cls:no_domain_spelling:.*name.*": 500, "re:cls:no_domain_spelling:T\\(\\)": 500, "op:abandon": 300, "op:exc": 200, "op:newclass": 150, "op:pred_raises": 100, "op:toggle_caching": 100, "cls:live_iterator_started_in": 100, "cls:live_iterator_started_out": 100, "queries_with_subclass_instances": 300}
+            "cls:inferred_instances_queried": 60, "op:predq": 300, "re:cls:no_domain_spelling:.*name.*": 500, "re:cls:no_domain_spelling:T\\(\\)": 500, "op:abandon": 300, "op:exc": 200, "op:newclass": 150, "op:pred_raises": 100, "op:toggle_caching": 100, "op:block_nodomain": 60, "cls:live_iterator_started_in": 100, "cls:live_iterator_started_out": 100, "queries_with_subclass_instances": 300}
 
 
 def gen_case(rng):
@@ -102,6 +102,8 @@ def gen_case(rng):
             ops.append(["pred_raises", rng.randrange(ncls)])
         elif k < 0.965:
             ops.append(["toggle_caching"])
+        elif k < 0.985:
+            ops.append(["block_nodomain", rng.randrange(ncls), rng.randrange(ncls)])
         else:
             ops.append(["query", rng.choice(["main", "main", "out"]), rng.randrange(ncls)])
     ops.append(["query", "main", 0])
@@ -323,12 +325,46 @@ def check_case(case, ctx):
             o = main[0](4)
             log.append(o)
             history.append(["pred_raises", cls.__name__, raised])
+        elif op[0] == "block_nodomain":
+            # a query whose block adds a predicate term; another no-domain variable is declared and queried INSIDE that block: it
+            # is a variable of its own, ranging over the registry
+            from entity_query_language import HasType
+            ck, cj = main[op[1] % len(main)], main[op[2] % len(main)]
+            want_q = [o for o in log if isinstance(o, main[0]) and isinstance(o, ck)]
+            want_inner = [o for o in log if isinstance(o, cj)]
+            with symbolic_mode():
+                with an(entity(let(main[0]))) as bq:
+                    HasType(ck)
+                    inner = an(entity(let(cj)))
+            got_q, got_inner = list(bq.evaluate()), list(inner.evaluate())
+            if Counter(map(id, got_q)) != Counter(map(id, want_q)) or Counter(map(id, got_inner)) != Counter(map(id, want_inner)):
+                fail = {"what": "QUERY_IN_A_QUERY_BLOCK", "outer": [len(got_q), len(want_q)], "inner": [len(got_inner), len(want_inner)],
+                        "classes": [ck.__name__, cj.__name__]}
+                break
+            history.append(["block_nodomain", ck.__name__, cj.__name__, len(got_q), len(got_inner)])
         elif op[0] == "toggle_caching":
-            # switching the result cache off and on again has nothing to do with the registry of instances
+            # switching the result cache off and on again has nothing to do with the registry of instances: neither for the
+            # instances that exist nor for those constructed (by hand or by a rule) while it is off
             from entity_query_language.cache_data import enable_caching, disable_caching
             disable_caching()
-            enable_caching()
-            history.append(["toggle_caching"])
+            try:
+                o = main[0](3)
+                log.append(o)
+                src, tgt = main[0], outf[0]
+                want_r = [x_ for x_ in log if isinstance(x_, src) and x_.n > 2]
+                with rule_mode():
+                    x = let(src)
+                    rq = infer(entity(tgt(n=x.n), x.n > 2))
+                res = list(rq.evaluate())
+                if sorted(r.n for r in res) != sorted(x_.n for x_ in want_r):
+                    fail = {"what": "RULE_RESULT", "while": "caching disabled", "expected_n": sorted(x_.n for x_ in want_r),
+                            "observed": [(type(r).__name__, getattr(r, "n", None)) for r in res]}
+                log.extend(res)
+            finally:
+                enable_caching()
+            if fail:
+                break
+            history.append(["toggle_caching", "constructed 1 + inferred %d while off" % len(res)])
         elif op[0] == "iter":
             pool = [o for o in log if isinstance(o, main[0])][:4]
             if len(pool) >= 2:
